@@ -7,11 +7,26 @@ namespace Wrgl.Drv
 
 def strList (j : Json) : Except String (List String) := do (← asArr j).mapM asStr
 
+/-- What the caller hands to a logged set besides the value: message, transaction id (or null),
+    author name, author e-mail, action, time (Unix seconds). The model carries it as one opaque
+    payload (`LogRow.msg` / `Entry.msg`): the store has to give back every part of it unchanged, from
+    the ref's own log and from the log of every rename/copy of the ref. -/
+def logPayload (m txid author email action time : Json) : String :=
+  (Json.arr #[m, txid, author, email, action, time]).compress
+
+/-- the fixed caller data of the plain `setlog`/`setlogold`/`setlogfail` operations of the harness -/
+def plainPayload (m : Json) : String :=
+  logPayload m Json.null (Json.str "a") (Json.str "e") (Json.str "act") (jNat 1700000000)
+
 def ropOf (j : Json) : Except String ROp := do
   match ← asArr j with
   | [Json.str "set", k, v] => return .set (← asStr k) (← asBytes v)
-  | [Json.str "setlog", k, v, m] => return .setLog (← asStr k) (← asBytes v) (← asStr m)
-  | [Json.str "setlogold", k, v, m, _] => return .setLog (← asStr k) (← asBytes v) (← asStr m)   -- a stale caller-supplied old value is ignored
+  | [Json.str "setlog", k, v, m] => return .setLog (← asStr k) (← asBytes v) (plainPayload m)
+  | [Json.str "setlogold", k, v, m, _] => return .setLog (← asStr k) (← asBytes v) (plainPayload m)   -- a stale caller-supplied old value is ignored
+  -- a logged set with every caller-supplied field chosen by the generator (transaction id or "")
+  | [Json.str "setlogx", k, v, m, txid, author, email, action, time] =>
+    let tx := if txid == Json.str "" then Json.null else txid
+    return .setLog (← asStr k) (← asBytes v) (logPayload m tx author email action time)
   | [Json.str "get", k] => return .get (← asStr k)
   | [Json.str "del", k] => return .del (← asStr k)
   | [Json.str "filter", ps, nps] => return .filter (← strList ps) (← strList nps)
@@ -35,7 +50,12 @@ def jROut : ROut → Json
   | .pairs l => Json.arr (l.map (fun p => Json.arr #[Json.str p.1, jBytes p.2])).toArray
   | .names l => jStrs l
   | .log none => "notfound"
-  | .log (some es) => Json.arr (es.map (fun e => Json.arr #[jOptB e.old, jBytes e.new, Json.str e.msg])).toArray
+  | .log (some es) => Json.arr (es.map (fun e =>
+      -- [old, new, message, txid, author, e-mail, action, time]
+      let rest := match Json.parse e.msg with
+        | .ok (Json.arr a) => a
+        | _ => #[Json.str e.msg]
+      Json.arr (#[jOptB e.old, jBytes e.new] ++ rest))).toArray
 
 def opKind (j : Json) : String :=
   match j.getArr? with
